@@ -174,3 +174,37 @@ def validate_skipping(c, traces, cfg, classify, max_skips=12, chunk=40, parallel
                 nxt.append(n)
         pending = nxt
     return classes
+
+
+def crash_signature(r):
+    """'<kind>@<step>|crash|<symptom>' for a rejected crash-and-recover trace."""
+    tag = r["header"].get("tag", "")
+    parts = tag.split("|")
+    where = parts[1] if len(parts) > 1 else "?"
+    raw, idx = r["raw"], r["index"]
+    ev = raw[idx] if 0 <= idx < len(raw) else {}
+    kind, t = ev.get("ev", "?"), ev.get("t", "")
+    if kind == "Logs":
+        sym = "logs-left-after-recovery"
+    elif kind == "Op" and (t.startswith("m") or t.startswith("n")):
+        s = ev.get("s")
+        mine = [e for e in raw if e.get("t") == t and e.get("s") == s and e.get("ev") == "Op"]
+        cnt = next((e["n"] for e in mine if e.get("op") == "Count"), None)
+        scan = next((e["items"] for e in mine if e.get("op") == "Scan"), None)
+        sym = "later-reader:count-differs-from-scan" if (cnt is not None and scan is not None and cnt != len(scan)) else "later-reader:not-all-or-nothing"
+    elif kind in ("Observe", "ObserveError"):
+        if kind == "ObserveError":
+            sym = "observe:unreadable"
+        elif ev.get("exists") and ev.get("count") != len(ev.get("items") or []):
+            sym = "observe:count-differs-from-scan"
+        else:
+            sym = "observe:not-all-or-nothing"
+    elif kind == "CommitEnd" and t == "tr":
+        sym = "retry-commit-failed-after-recovery"
+    elif kind in ("Op", "OpError", "OpenStore", "NewStore") and t == "tr":
+        sym = "retry-%s-differs:%s" % (kind.lower(), ev.get("op", ""))
+    elif kind in ("OpenStore", "OpError") and (t.startswith("m") or t.startswith("n")):
+        sym = "later-reader:cannot-open-or-read"
+    else:
+        sym = "other:%s" % kind
+    return "%s|crash|%s" % (where, sym)
